@@ -258,3 +258,53 @@ Theorem imp_init_tables :
   imp_sequtil_init_sequtil_0 = Ret (g_sequtil_ntoi, g_sequtil_complementBytes)
   /\ imp_sequtil_init_sequtil_1 = Ret g_sequtil_dnaFrom2bit.
 Proof. split; vm_compute; reflexivity. Qed.
+
+(* ---- the two lookup tables of amino.go: the model's tables are the source's map literals -------- *)
+Definition lit_codon (k : list N) : N :=
+  match find (fun p => beqb (fst p) k) imp_sequtil_var_codonToAmino with Some p => snd p | None => 0 end.
+
+Lemma codon_lit_is_tab :
+  imp_sequtil_var_codonToAmino = map (fun e => match e with (a, b, c, aa) => ([a; b; c], aa) end) codon_tab.
+Proof. reflexivity. Qed.
+
+Lemma find_codon_map (tab : list (N * N * N * N)) k :
+  match find (fun p => beqb (fst p) k) (map (fun e => match e with (a, b, c, aa) => ([a; b; c], aa) end) tab) with
+  | Some p => snd p | None => 0 end
+  = match k with
+    | [a; b; c] =>
+      match find (fun e => match e with (x, y, z, _) => (x =? a) && (y =? b) && (z =? c) end) tab with
+      | Some (_, _, _, aa) => aa | None => 0 end
+    | _ => 0
+    end.
+Proof.
+  induction tab as [|[[[x y] z] aa] tab IH]; cbn [map find fst snd].
+  - destruct k as [|a [|b [|c [|d r]]]]; reflexivity.
+  - destruct k as [|a [|b [|c [|d r]]]]; cbn [beqb]; rewrite ?andb_false_r, ?andb_true_r; try exact IH.
+    rewrite <- andb_assoc. destruct ((x =? a) && ((y =? b) && (z =? c))) eqn:E; [reflexivity|exact IH].
+Qed.
+
+Theorem codon_table_is_source k : g_sequtil_codonToAmino k = lit_codon k.
+Proof.
+  unfold lit_codon. rewrite codon_lit_is_tab, find_codon_map. unfold g_sequtil_codonToAmino.
+  destruct k as [|a [|b [|c [|d r]]]]; reflexivity.
+Qed.
+
+Definition lit_amino (b : N) : option (list N * list N) :=
+  match find (fun p => (fst p =? b)) imp_sequtil_var_aminoToName with Some p => Some (snd p) | None => None end.
+
+Definition opt_names_eqb (a b : option (list N * list N)) : bool :=
+  match a, b with
+  | Some (x1, y1), Some (x2, y2) => beqb x1 x2 && beqb y1 y2
+  | None, None => true
+  | _, _ => false
+  end.
+
+Lemma amino_names_sweep : forallb (fun b => opt_names_eqb (g_sequtil_aminoToName b) (lit_amino b)) bytes256 = true.
+Proof. vm_compute. reflexivity. Qed.
+
+Theorem amino_table_is_source b : is_byte b -> g_sequtil_aminoToName b = lit_amino b.
+Proof.
+  intros Hb. pose proof (proj1 (forallb_forall _ _) amino_names_sweep b (in_bytes256 b Hb)) as H.
+  destruct (g_sequtil_aminoToName b) as [[x1 y1]|], (lit_amino b) as [[x2 y2]|]; cbn [opt_names_eqb] in H; try discriminate; try reflexivity.
+  apply andb_true_iff in H. destruct H as [H1 H2]. apply beqb_true_eq in H1. apply beqb_true_eq in H2. subst. reflexivity.
+Qed.
